@@ -50,7 +50,10 @@ class BidsFileGroup:
         for bids_obj in self.datafile_dict.values():
             sidecar_list = self.get_sidecars_from_path(bids_obj)
             if sidecar_list:
-                bids_obj.sidecar = self.sidecar_dict[sidecar_list[-1]]
+                # Merge every applicable sidecar from the root down to this file (the deepest sidecar's own merge
+                # misses shallower sidecars whose entities are not a subset of the deepest sidecar's entities).
+                bids_obj.sidecar = BidsSidecarFile(sidecar_list[-1])
+                bids_obj.sidecar.set_contents(content_info=sidecar_list)
 
     def get_sidecars_from_path(self, obj):
         """ Return applicable sidecars for the object.
